@@ -410,4 +410,66 @@ theorem check_sound (H : Hyp Sol cert pv) {rest : List Ev} {k : Nat}
           · rw [hpop] at hc; cases hc
         · cases hacc
 
+/-! ### several starting cells (a search resumed from a saved paving) -/
+
+/-- after any accepted log, the invariant holds for every box pushed at the very beginning of the log -/
+theorem leading_inv (H : Hyp Sol cert pv) : ∀ (log : List Ev) {s s' : St}, s.popped = none → s.topped = none →
+    (∀ i o, Ev.ctc i o ∈ log → ∀ p ∈ Sol, Box.Mem p i → Box.Mem p o) →
+    log.foldlM (step cert pv) s = .ok s' → ∀ r ∈ leadingPushes log, Inv Sol pv r s'
+  | [], _, _, _, _, _, _ => by intro r hr; cases hr
+  | .top _ :: _, _, _, _, _, _, _ => by intro r hr; cases hr
+  | .ctc _ _ :: _, _, _, _, _, _, _ => by intro r hr; cases hr
+  | .pop _ :: _, _, _, _, _, _, _ => by intro r hr; cases hr
+  | .flush :: _, _, _, _, _, _, _ => by intro r hr; cases hr
+  | .push b :: es, s, s', hpop, htop, hleaf, h => by
+    intro r hr
+    simp only [List.foldlM_cons, bind, Except.bind] at h
+    cases hs : step cert pv s (.push b) with
+    | error m => rw [hs] at h; cases h
+    | ok s1 =>
+      rw [hs] at h
+      have hs' := hs
+      simp only [step, hpop] at hs'
+      split at hs'
+      · cases hs'
+      · injection hs' with hs'
+        have hleaf' : ∀ i o, Ev.ctc i o ∈ es → ∀ p ∈ Sol, Box.Mem p i → Box.Mem p o :=
+          fun i o he => hleaf i o (List.mem_cons_of_mem _ he)
+        simp only [leadingPushes, List.mem_cons] at hr
+        rcases hr with rfl | hr
+        · refine foldlM_inv H es ?_ hleaf' h
+          subst hs'
+          exact ⟨fun p _ hp => Or.inr (Or.inl ⟨r, List.mem_cons_self .., hp⟩),
+            fun t ht => by simp only [htop] at ht; cases ht⟩
+        · refine leading_inv H es ?_ ?_ hleaf' h r hr
+          · subst hs'; rfl
+          · subst hs'; exact htop
+
+/-- **Soundness of the cover certificate for a resumed search**: an accepted log proves that every solution
+    of every box pushed at the very beginning of the log is in a box of the final paving. -/
+theorem check_sound_roots (H : Hyp Sol cert pv) {log : List Ev} {k : Nat}
+    (hacc : check cert pv log = .ok k)
+    (hleaf : ∀ i o, Ev.ctc i o ∈ log → ∀ p ∈ Sol, Box.Mem p i → Box.Mem p o) :
+    ∀ r ∈ leadingPushes log, ∀ p ∈ Sol, Box.Mem p r → InPaving pv p := by
+  intro r hr p hs hp
+  simp only [check, bind, Except.bind] at hacc
+  cases h1 : log.foldlM (step cert pv) St.init with
+  | error m => rw [h1] at hacc; cases hacc
+  | ok s1 =>
+    rw [h1] at hacc
+    simp only at hacc
+    cases h2 : discharge cert pv s1 with
+    | error m => rw [h2] at hacc; cases hacc
+    | ok s2 =>
+      rw [h2] at hacc
+      simp only at hacc
+      split at hacc
+      · rename_i hall
+        obtain ⟨hI, hpop⟩ := discharge_inv H (leading_inv H log rfl rfl hleaf h1 r hr) h2
+        rcases hI.cov p hs hp with h | ⟨b, hb, h⟩ | ⟨c, hc, -⟩
+        · exact h
+        · exact inPaving_of_storedOk H (List.all_eq_true.1 hall b hb) hs h
+        · rw [hpop] at hc; cases hc
+      · cases hacc
+
 end Ibex.Cover
